@@ -331,6 +331,20 @@ pub async fn build_block_ex(
         let vic = if vic == att { (att + 1) % 4 } else { vic };
         let (spent, expired) = spent_and_expired(node, pid + 1);
         let ctx = EditCtx { node, attacker: att, victim: vic, for_block_id: pid + 1, ts: ts + 77, spent: &spent, expired: &expired, offchain: &[] };
+        if edit == TxEdit::TwiceInBlock {
+            // two individually valid spends of one output: Block::create refuses to build that, so the
+            // block is built with the first spend and the second one is inserted by hand
+            let second = edited_tx(edit, &ctx)?;
+            let s0 = second.from[0].clone();
+            let first = tx_from_inputs(vec![s0.clone()], vec![(key(att).0, s0.amount)], &key(att), ts + 76, vec![]);
+            let k0 = s0.get_utxoset_key();
+            txs.retain(|t| !t.from.iter().any(|s| s.amount > 0 && s.get_utxoset_key() == k0));
+            txs.push(first);
+            let mut b = node.make_block_as(&creator, parent_hash, ts, txs, gt).await.ok()?;
+            b.transactions.push(second);
+            re_sign(&mut b, &creator, true);
+            return Some((b, Some("tx:TwiceInBlock".into())));
+        }
         if let Some(bad) = edited_tx(edit, &ctx) {
             // keep honest txs that do not collide with the bad one's inputs
             let bad_inputs: BTreeSet<SaitoUTXOSetKey> = bad.from.iter().filter(|s| s.amount > 0).map(|s| s.get_utxoset_key()).collect();
